@@ -120,7 +120,23 @@ CORPUS["async-child-launch"] = dict(
                             "kidwork": [{"ok": {"op": "tag"}, "delay": 2.0}]},
     machines={"kid": {"definition": machine("K", K=T("kidwork", End=True)), "type": "STANDARD"}})
 
-QUICK = ["raw-start-task-wait", "async-child-launch", "pass-task-pass", "two-tasks-and-wait", "choice-and-succeed", "task-retry-then-success", "task-catch",
+# a child execution the parent waits for (.sync): the parent's launching Task must re-attach to the running child after a
+# restart (the child is named by the launching event's id, which survives redelivery)
+for _form, _nm in (("startExecution.sync", "sync-child-between-tasks"), ("startExecution.sync:2", "sync2-child-between-tasks")):
+    CORPUS[_nm] = dict(
+        definition=machine("A", A=T("f1", Next="L"),
+                           L={"Type": "Task", "Resource": "arn:aws:states:local::states:" + _form,
+                              "Parameters": {"StateMachineArn": "arn:aws:states:local:0123456789:stateMachine:kid",
+                                             "Input": {"v.$": "$.x"}},
+                              "ResultSelector": {"out.$": "$.Output", "st.$": "$.Status"},
+                              "ResultPath": "$.kid", "Next": "B"},
+                           B=T("f2", End=True)),
+        input={"x": 5}, script={"f1": [{"ok": {"op": "echo"}, "delay": 1.0}], "f2": [{"ok": {"op": "len"}, "delay": 1.0}],
+                                "kidwork": [{"ok": {"op": "tag"}, "delay": 2.0}]},
+        machines={"kid": {"definition": machine("K", K=T("kidwork", Next="K2"), K2={"Type": "Wait", "Seconds": 1, "End": True}),
+                          "type": "STANDARD"}})
+
+QUICK = ["raw-start-task-wait", "async-child-launch", "sync-child-between-tasks", "pass-task-pass", "two-tasks-and-wait", "choice-and-succeed", "task-retry-then-success", "task-catch",
          "task-timeout-caught", "fail-state", "parallel-two-tasks", "parallel-end-with-wait", "map-tasks",
          "map-maxconcurrency", "map-batches-task-then-pass", "parallel-branch-fails", "map-batches-iterator-ends-in-parallel",
          "parallel-branch-ends-in-map", "parallel-in-parallel-then-task"]
